@@ -23,11 +23,14 @@ def check(ctx):
                 "park-slot", "Park::subscribe", "state.load() is true")
     ctx.order(SUB, ao("take", P + ".wait_co"), Call(r"may::coroutine_impl::run_coroutine|may::scheduler::Scheduler::schedule", transitive=False), "take-then-run",
               "the coroutine that subscribe resumes itself is the one taken back from the slot (single owner)", rule="R-SLOT")
-    ctx.order(P + "::wake_up", ao("take", P + ".wait_co"), Call(r"may::coroutine_impl::run_coroutine|may::scheduler::Scheduler::schedule"),
+    # stated on the primitive (taking the coroutine out of the slot), reached through the wake_up helper or directly
+    WAKE = ao("take", P + ".wait_co")
+    WK = P + "::wake_up" if ctx.prog.fn(P + "::wake_up") is not None else P + "::unpark_impl"
+    ctx.order(WK, ao("take", P + ".wait_co", transitive=False), Call(r"may::coroutine_impl::run_coroutine|may::scheduler::Scheduler::schedule", transitive=False),
               "take-then-resume", "the coroutine that is resumed is the one taken from the slot (single owner)", rule="R-SLOT")
-    slot_waker(ctx, P + "::unpark_impl", atomic("swap", P + ".state"), Call(re.escape(P) + "::wake_up"), "unpark",
+    slot_waker(ctx, P + "::unpark_impl", atomic("swap", P + ".state"), WAKE, "unpark",
                "Park::unpark_impl")
-    ctx.guarded(P + "::unpark_impl", Call(re.escape(P) + "::wake_up"), call_false(A("swap"), P + ".state"), "wake-only-first-token",
+    ctx.guarded(P + "::unpark_impl", WAKE, call_false(A("swap"), P + ".state"), "wake-only-first-token",
                 "only the unpark that flips the token false→true wakes (one wake per token)", rule="R-SLOT",
                 pred_label="edge `state.swap(true)` returned false")
     # the swap stores `true`
@@ -67,7 +70,7 @@ def check(ctx):
               "timeout-before-yield", "the timeout for this park is stored before subscribe can read it")
     ctx.must_follow(PT, YW, Call(re.escape(P) + "::check_park"), "clear-token-after",
                     "the trigger state is cleared after every resume")
-    ctx.must_follow(PT, YW, Call(re.escape(P) + "::remove_timeout_handle"), "disarm-after",
+    ctx.must_follow(PT, YW, Call(re.escape(P) + "::set_timeout_handle"), "disarm-after",
                     "the timer is disarmed after every resume (a stale timer must not wake a later park)")
     ctx.must_follow(PT, YW, Call(r"may::yield_now::get_co_para"), "consume-result",
                     "the passed-in result is consumed after every resume")
